@@ -934,6 +934,10 @@ def zrank_init(rep, ex: Explorer, cls=ZP):
                         bo = p.state.heap.get(bbv.oid) if isinstance(bbv, Ref) else None
                         cd_ = p.state.heap.get(bo.attrs["conditionals"].oid) if isinstance(bo, HObj) and isinstance(bo.attrs.get("conditionals"), Ref) else None
                         own = isinstance(cd_, HDict) and not cd_.entries and len(cd_.each) == 1 and cd_.each[0][2] == KEYS_D
+                        pol = b_.get("on_inconsistent")
+                        rep.check(pol is None or (isinstance(pol, Const) and pol.value in ("warn", "silent")), "ZRANK.refuse", f"{site}:{dv.node.lineno}", f"diagnostics policy (extended={ext.value})",
+                                  "the diagnostics are computed in full and saved before the refusal: contradictory facts must not make the diagnostics themselves raise (the refusal would lose them)",
+                                  extracted=f"on_inconsistent={pol!r}", required="'warn' or 'silent'", function=site)
                         okd = own and b_.get("extended") == Const(bool(want_mode)) and b_.get("uses_facts") == Const(bool(with_facts)) \
                             and (b_.get("facts") == ElemV(("facts",), "coll", "factentry") if with_facts else b_.get("facts") in (None, Const(None)))
                         pre = b_.get("precomputed")
